@@ -19,11 +19,12 @@ import (
 //   - Reader.interns: string interning changes identity, never value;
 //   - Result.line / UnitMetadata.line / SyntaxError.Line: flow only
 //     additively into positions, which are compared on every transition;
-//   - Reader.q beyond len: only ever overwritten by append.
+//   - Reader.q beyond len: only ever overwritten by append;
+//   - Writer.w: the output sink, which the Writer only ever writes to.
 func readerCanon() *mc.Canon {
 	return &mc.Canon{
 		SkipTypes:     map[reflect.Type]bool{reflect.TypeOf((*bufio.Scanner)(nil)): true},
-		SkipFields:    map[string]bool{"Reader.interns": true, "Result.line": true, "UnitMetadata.line": true},
+		SkipFields:    map[string]bool{"Reader.interns": true, "Result.line": true, "UnitMetadata.line": true, "Writer.w": true},
 		LenOnlyFields: map[string]bool{"Reader.q": true},
 	}
 }
@@ -99,6 +100,14 @@ func configConsistent(r *Result) string {
 		}
 	}
 	return ""
+}
+
+func histLines(alpha []string, hist []int) []string {
+	out := make([]string, len(hist))
+	for i, h := range hist {
+		out[i] = alpha[h]
+	}
+	return out
 }
 
 var _ = ref.MaxLine
